@@ -65,6 +65,8 @@ def run(ctx):
     ctx.rule("R16.e", "schema and serialized state are computed from the same Parameter objects: the entry points hand the same object (instance or class) to the serializer, "
                       "and JSONSerialization.schema / serialize_parameters iterate the same pobj.param.objects(...) view", floor=2)
     ctx.rule("R16.f", "the enum of a selector schema is the live objects the Selector validates against (p.objects), not a view derived from the name mapping", floor=2)
+    ctx.rule("R16.h", "the states the schema is promised for are the states validation admits: a class default declared in a subclass is validated against the inherited constraints the "
+                      "schema is generated from, for every default other than None (guard of the re-validation in __param_inheritance)", floor=1)
     ctx.rule("R16.g", "every value class the Number validator accepts is accepted by the emitted schema keywords, also for inclusivity flags that are not literally True/False "
                       "(0, 1): abstract interpretation of both sides on bounds x flags x ordering class (exhaustive)", floor=1)
     ctx.not_decided += ["that arbitrary serialized values validate against the schema (needs a validator run)", "Selector enum contents (run-time objects)"]
@@ -204,11 +206,56 @@ def run(ctx):
     (ctx.ok if ok else ctx.fail)("R16.d", ps, rets[-1] if rets else ps.node, "JSONNullable(schema) iff p.allow_None" if ok else
                                  "param_schema no longer wraps the schema with JSONNullable exactly when p.allow_None (a None value fails validation / nulls wrongly allowed)")
     jn = ctx.repo.func("param.serializer.JSONNullable")
-    it = Interp(ctx.hier)
-    outs = it.run_all(jn, {"json_type": {"type": "number"}})
-    v = outs[0].value if outs and outs[0].kind == "return" else None
-    ok = isinstance(v, dict) and list(v) == ["anyOf"] and v["anyOf"] == [{"type": "number"}, {"type": "null"}]
-    (ctx.ok if ok else ctx.fail)("R16.d", jn, jn.node, "JSONNullable(s) == {'anyOf': [s, {'type': 'null'}]}" if ok else "JSONNullable no longer returns {'anyOf': [schema, {'type': 'null'}]}")
+
+    def accepts(schema, v):
+        """validity of a probe value against the type/enum/anyOf keywords of a concrete schema dict"""
+        for k, c in schema.items():
+            if k == "type":
+                ts_ = c if isinstance(c, list) else [c]
+                tname = "null" if v is None else "number" if isinstance(v, (int, float)) and not isinstance(v, bool) else "string" if isinstance(v, str) else "other"
+                if tname not in ts_ and not (tname == "number" and "integer" in ts_ and isinstance(v, int)):
+                    return False
+            elif k == "enum":
+                if not any(x is v or (type(x) is type(v) and x == v) for x in c):
+                    return False
+            elif k == "anyOf":
+                if not any(accepts(s_, v) for s_ in c):
+                    return False
+        return True
+    # the shapes the schema methods of this serializer produce for nullable parameters
+    shapes = [{"type": "number"}, {"type": "string"}, {"type": "array", "minItems": 2},
+              {"anyOf": [{"type": "number"}, {"type": "string"}]},                        # ClassSelector with a tuple of classes
+              {"anyOf": [{"type": "number"}], "enum": [1, 2]},                              # selector_schema: anyOf next to enum
+              {"anyOf": [{"type": "string"}, {"type": "number"}], "enum": ["a", 1]}]
+    probes = [None, 1, 3, "a", "zz"]
+    badn = None
+    for sh in shapes:
+        it = Interp(ctx.hier)
+        import copy as _copy
+        try:
+            outs = it.run_all(jn, {"json_type": _copy.deepcopy(sh)})
+        except Unsupported as e:
+            raise AnalysisError("absint cannot interpret JSONNullable: %s -- R16.d cannot decide" % e)
+        ctx.abstract_cases += 1
+        v = outs[0].value if len(outs) == 1 and outs[0].kind == "return" and not outs[0].imprecise else None
+        if not isinstance(v, dict):
+            raise AnalysisError("absint imprecise on JSONNullable(%r) -- R16.d cannot decide" % (sh,))
+        try:
+            if not accepts(v, None):
+                badn = (sh, v, "null does not validate against it: a legal None value fails the generated schema")
+            else:
+                for pr in probes[1:]:
+                    if accepts(v, pr) != accepts(sh, pr):
+                        badn = (sh, v, "the value %r is %s by it but %s by the original schema" % (pr, "accepted" if accepts(v, pr) else "rejected", "accepted" if accepts(sh, pr) else "rejected"))
+        except (TypeError, AttributeError):
+            raise AnalysisError("JSONNullable(%r) returns a structure the evaluator cannot read: %r" % (sh, v))
+        if badn:
+            break
+    if badn:
+        ctx.fail("R16.d", jn, jn.node, "JSONNullable(%r) returns %r: %s" % badn, key=jn.qualname + "::nullable-semantics",
+                 input="param.Selector(objects=[1, 2], allow_None=True) with value None: serialized null is rejected by the schema")
+    else:
+        ctx.ok("R16.d", jn, jn.node, "JSONNullable: on %d schema shapes (incl. anyOf next to enum) null validates against the result and %d probe values are accepted exactly as before" % (len(shapes), len(probes) - 1))
     ts = cls.method("tuple_schema")
     ok = True
     for length in (LO, None):
@@ -226,6 +273,9 @@ def run(ctx):
     ctx.abstract_cases += 2
     (ctx.ok if ok else ctx.fail)("R16.d", ts, ts.node, "tuple_schema: type array, minItems = maxItems = length when a length is declared" if ok else
                                  "tuple_schema does not pin minItems and maxItems to the declared length")
+
+    from checks.shared import inherited_default_revalidated
+    inherited_default_revalidated(ctx, "R16.h")
 
     # ---------------------------------------------------------------- R16.e
     PZ = "param.parameterized.Parameters"
